@@ -203,6 +203,12 @@ impl DebugCheck {
                 _ => Transport::Stdin,
             }
         };
+        // A control character cannot be typed into the line editor
+        let transport = if transport == Transport::Terminal && script.iter().any(|i| i.render().chars().any(|c| (c as u32) < 0x20)) {
+            Transport::Arg
+        } else {
+            transport
+        };
         let input: Vec<u8> = if with_input {
             let n = rng.usize_below(8);
             (0..n)
